@@ -50,6 +50,19 @@ const E2_NAMES: [&str; 7] = [
 	"command before the first callback: play(sound); set_volume || 3 callbacks",
 ];
 
+/// (index into kinds(), host) for every sound-handle command kind on every non-main host
+fn hosted() -> Vec<(usize, u8)> {
+	let mut v = vec![];
+	for (i, k) in kinds().iter().enumerate() {
+		if k.name.starts_with("static.") || k.name.starts_with("streaming.") {
+			for host in 1..=3u8 {
+				v.push((i, host));
+			}
+		}
+	}
+	v
+}
+
 fn e2_cases() -> u64 {
 	E2_NAMES.len() as u64
 }
@@ -62,10 +75,13 @@ impl Check for C07 {
 		Level::ModelChecking
 	}
 	fn num_cases(&self, _tier: Tier) -> u64 {
-		e2_cases() + kinds().len() as u64 + 1
+		e2_cases() + kinds().len() as u64 + 1 + hosted().len() as u64
 	}
 	fn describe(&self, _tier: Tier, idx: u64) -> String {
-		if idx < e2_cases() {
+		if idx > e2_cases() + kinds().len() as u64 {
+			let (ki, host) = hosted()[(idx - e2_cases() - kinds().len() as u64 - 1) as usize];
+			format!("E1 command kind '{}' with the sound played on a {}: same three laws", kinds()[ki].name, HOST_NAMES[host as usize])
+		} else if idx < e2_cases() {
 			format!("E2 interleavings: {}", E2_NAMES[idx as usize])
 		} else if idx == e2_cases() + kinds().len() as u64 {
 			"E1 cross-kind / cross-resource non-interference scenarios".to_string()
@@ -74,7 +90,10 @@ impl Check for C07 {
 		}
 	}
 	fn sig_hint(&self, _tier: Tier, idx: u64) -> String {
-		if idx < e2_cases() {
+		if idx > e2_cases() + kinds().len() as u64 {
+			let (ki, host) = hosted()[(idx - e2_cases() - kinds().len() as u64 - 1) as usize];
+			format!("kind {} @ {}", kinds()[ki].name, HOST_NAMES[host as usize])
+		} else if idx < e2_cases() {
 			format!("E2 {}", E2_NAMES[idx as usize])
 		} else if idx == e2_cases() + kinds().len() as u64 {
 			"cross-kind".to_string()
@@ -109,6 +128,14 @@ impl Check for C07 {
 				5 => e2_clock_stop(tier, ctx),
 				_ => e2_first_callback(tier, ctx),
 			}
+		} else if idx > e2_cases() + kinds().len() as u64 {
+			let (ki, host) = hosted()[(idx - e2_cases() - kinds().len() as u64 - 1) as usize];
+			let base = &kinds()[ki];
+			let name: &'static str = Box::leak(format!("{} @ {}", base.name, HOST_NAMES[host as usize]).into_boxed_str());
+			let k = CmdKind { name, run: base.run, builder_equiv: base.builder_equiv, immediate: base.immediate };
+			CUR_HOST.with(|h| h.set(host));
+			e1_kind(&k, ctx);
+			CUR_HOST.with(|h| h.set(0));
 		} else if idx == e2_cases() + kinds().len() as u64 {
 			if let Err(p) = catch(|| cross_kind(ctx)) {
 				ctx.fail(format!("panic: {} :: cross-kind", p), "");
@@ -739,6 +766,46 @@ fn drive(mode: Mode, m: &mut Manager, apply: &mut dyn FnMut(usize), pace: &mut d
 	out
 }
 
+thread_local! {
+	/// where the sound kinds play their sound: 0 main track, 1 sub-track, 2 nested sub-track, 3 spatial sub-track
+	static CUR_HOST: std::cell::Cell<u8> = const { std::cell::Cell::new(0) };
+	static HOST_KEEP: std::cell::RefCell<Vec<Box<dyn std::any::Any>>> = const { std::cell::RefCell::new(Vec::new()) };
+}
+const HOST_NAMES: [&str; 4] = ["main track", "sub-track", "nested sub-track", "spatial sub-track"];
+
+fn play_hosted<D: kira::sound::SoundData>(m: &mut Manager, data: D) -> Result<D::Handle, kira::PlaySoundError<D::Error>> {
+	let host = CUR_HOST.with(|h| h.get());
+	match host {
+		0 => m.play(data),
+		1 => {
+			let mut t = m.add_sub_track(TrackBuilder::new()).unwrap();
+			let r = t.play(data);
+			HOST_KEEP.with(|k| k.borrow_mut().push(Box::new(t)));
+			r
+		}
+		2 => {
+			let mut t = m.add_sub_track(TrackBuilder::new()).unwrap();
+			let mut u = t.add_sub_track(TrackBuilder::new()).unwrap();
+			let r = u.play(data);
+			HOST_KEEP.with(|k| {
+				k.borrow_mut().push(Box::new(u));
+				k.borrow_mut().push(Box::new(t));
+			});
+			r
+		}
+		_ => {
+			let l = m.add_listener(glam::Vec3::ZERO, glam::Quat::IDENTITY).unwrap();
+			let mut t = m.add_spatial_sub_track(&l, glam::Vec3::new(0.0, 0.0, -1.0), SpatialTrackBuilder::new()).unwrap();
+			let r = t.play(data);
+			HOST_KEEP.with(|k| {
+				k.borrow_mut().push(Box::new(t));
+				k.borrow_mut().push(Box::new(l));
+			});
+			r
+		}
+	}
+}
+
 fn built_idx(mode: Mode) -> usize {
 	match mode {
 		Mode::Built(v) => v,
@@ -786,7 +853,7 @@ pub fn kinds() -> Vec<CmdKind> {
 					let vals = $vals;
 					let mut m = rig::manager(SR, 1, rig::caps(4), MainTrackBuilder::new());
 					let data = ($build)(noise_sound(SR), vals[built_idx(mode)]);
-					let mut h = m.play(data).unwrap();
+					let mut h = play_hosted(&mut m, data).unwrap();
 					if $name.ends_with(".resume") {
 						h.pause(instant());
 						let mut sink = vec![];
@@ -822,7 +889,7 @@ pub fn kinds() -> Vec<CmdKind> {
 					let frames: Vec<Frame> = (0..16).map(|i| Frame::new(noise(i), noise(i + 5))).collect();
 					let (dec, stats) = ScriptedDecoder::new(frames, SR, vec![3, 1, 2], 2);
 					let data = ($build)(StreamingSoundData::from_decoder(dec).loop_region(Region::from(..)), vals[built_idx(mode)]);
-					let mut h = m.play(data).map_err(|_| ()).unwrap();
+					let mut h = play_hosted(&mut m, data).map_err(|_| ()).unwrap();
 					if $name.ends_with(".resume") {
 						h.pause(instant());
 						pacer::step_all_from(first, 8);
@@ -1124,6 +1191,7 @@ fn e1_kind(k: &CmdKind, ctx: &mut Ctx) {
 		ctx.evals += 1;
 		ctx.traces += 1;
 		ctx.transitions += ncb as u64;
+		HOST_KEEP.with(|k| k.borrow_mut().clear());
 		match catch(|| (k.run)(mode)) {
 			Ok(v) => Some(v),
 			Err(p) => {
@@ -1255,8 +1323,78 @@ fn cross_kind(ctx: &mut Ctx) {
 		}
 		ctx.nontrivial(hash64(&"two"));
 	}
-	ctx.traces += 4;
-	ctx.transitions += 20;
+	// 4. two life-cycle commands of different kinds between the same two callbacks: both are consumed by the next
+	// callback - afterwards the state only moves along the fade that is in force (a command applied a callback
+	// late would switch it to another fade)
+	{
+		use kira::sound::PlaybackState as PS;
+		let slow = Tween { duration: Duration::from_secs_f64(3.0 / 8.0), ..Default::default() };
+		let names = ["pause", "resume", "stop"];
+		for streaming in [false, true] {
+			for a in 0..3usize {
+				for b in 0..3usize {
+					if a == b {
+						continue;
+					}
+					ctx.evals += 1;
+					let mut m = rig::manager(8, 1, rig::caps(2), MainTrackBuilder::new());
+					let first = pacer::count();
+					let mut stats = None;
+					let mut h: Box<dyn crate::probes::SoundHandle> = if streaming {
+						pacer::set_mode(pacer::Mode::Pacer);
+						let frames: Vec<Frame> = (0..16).map(|i| Frame::new(noise(i), noise(i + 5))).collect();
+						let (dec, st) = ScriptedDecoder::new(frames, 8, vec![3, 1, 2], 2);
+						stats = Some(st);
+						Box::new(m.play(StreamingSoundData::from_decoder(dec).loop_region(Region::from(..))).map_err(|_| ()).unwrap())
+					} else {
+						Box::new(m.play(dc_loop(8, 0.5)).unwrap())
+					};
+					let mut pace = || {
+						if streaming {
+							pacer::step_all_from(first, 8);
+						}
+					};
+					pace();
+					rig::callback(&mut m, &mut buf, 1, 2);
+					let mut apply = |h: &mut Box<dyn crate::probes::SoundHandle>, c: usize| match c {
+						0 => h.pause(slow),
+						1 => h.resume(slow),
+						_ => h.stop(slow),
+					};
+					apply(&mut h, a);
+					apply(&mut h, b);
+					let mut states = vec![];
+					for _ in 0..6 {
+						pace();
+						rig::callback(&mut m, &mut buf, 1, 2);
+						states.push(h.state());
+					}
+					let class = |s: PS| match s {
+						PS::Pausing | PS::Paused => 0,
+						PS::Resuming | PS::Playing => 1,
+						PS::Stopping | PS::Stopped => 2,
+						PS::WaitingToResume => 3,
+					};
+					if states.iter().any(|s| class(*s) != class(states[0])) {
+						ctx.fail(
+							format!("one of two commands of different kinds issued between the same two callbacks is applied a callback late :: cross-kind {}", if streaming { "streaming" } else { "static" }),
+							format!("{}(3 callbacks fade); {}(3 callbacks fade) -> states {:?}", names[a], names[b], states),
+						);
+					}
+					ctx.nontrivial(hash64(&("pair", streaming, a, b)));
+					if let Some(st) = stats {
+						h.stop(instant());
+						pace();
+						rig::callback(&mut m, &mut buf, 1, 2);
+						drop(m);
+						crate::probes::reap_decoder(first, &st);
+					}
+				}
+			}
+		}
+	}
+	ctx.traces += 16;
+	ctx.transitions += 20 + 12 * 7;
 	ctx.state(hash64(&"cross"));
 	ctx.outcome(hash64(&"cross"));
 }
